@@ -83,6 +83,20 @@ func observeHeader(h []byte) map[string]interface{} {
 		p, err := pr.ReadProfile()
 		return headerEvent(ev, p, err)
 	}
+	if n%19 == 11 {
+		// two profiles one after the other through ONE ProfileReader: what the first call returned stays
+		// what it was when the reader goes on to the next profile
+		h2 := append([]byte{}, h...)
+		for i := 48; i < 100; i++ {
+			h2[i] ^= 0x5A // manufacturer, model, attributes, intent, illuminant, creator, part of the ID
+		}
+		prof2 := append(append([]byte{}, h2...), prof[128:]...)
+		pr := icc.NewProfileReader(bytes.NewReader(append(append([]byte{}, prof...), prof2...)))
+		p1, err := pr.ReadProfile()
+		pr.ReadProfile() // the second profile; its outcome is not this event's concern
+		ev["reader"] = "bytes.Reader/first of two profiles, observed after the second was read"
+		return headerEvent(ev, p1, err)
+	}
 	rd, how := present(prof, n)
 	ev["reader"] = how
 	p, err := icc.NewProfileReader(rd).ReadProfile()
